@@ -692,7 +692,6 @@ func c09Client(c *Ctx) {
 	c.Check(n == 1 && ok, "O9.6", fk(bind)+":shared-client-only-from-a-pool", bind.Pos(), "Bind replaces the per-instance client only with clientPool.Next() on the clientPool != nil edge")
 }
 
-
 // storeExact: the instruction stores to field `field` of a struct whose own
 // (pointer-stripped) named type is typeName - no walk through enclosing structs.
 func storeExact(in ssa.Instruction, typeName, field string) (ssa.Value, bool) {
